@@ -329,6 +329,7 @@ static void do_rsa(void) {
 	memset(sig0, 0, sizeof(sig0));
 	VH_TRY(err, ret = cp_rsa_sig(sig0, &slen0, msg0, len0, flag0, prv));
 	vh_begin("rsa_sig");
+	vh_str("pad", pad_name()); vh_int("flag", flag0); vh_int("mlen", (long)len0);
 	vh_int("ret", ret); vh_int("err", err); vh_int("code", vh_code()); vh_int("slen", (long)slen0); vh_int("k", (long)k);
 	vh_end();
 	if (err || ret != RLC_OK) return;
